@@ -695,6 +695,60 @@ def rule_o13(ctx):
     r.notes.append("owning lists: " + ", ".join(sorted(own)))
 
 
+# ---------------------------------------------------------------------------
+# O14: a block is returned through the releaser that matches its allocator
+
+
+def rule_o14(ctx):
+    r = ctx.rule("C03.O14", "T11", "a block goes back the way it came: nni_strfree(p) returns strlen(p) + 1 bytes, which is the allocation "
+                 "size only of a string made by nni_strdup / nni_asprintf and left alone -- a field released with nni_strfree "
+                 "receives, everywhere in the library, only such strings (or NULL / another field of that kind); a field that is "
+                 "also filled from nni_alloc / nni_zalloc (a sized block, e.g. the clone of a parsed URL whose buffer has NUL "
+                 "bytes between its components) is released with nni_free and its recorded size", floor=15)
+    prog = ctx.prog
+    STR = ("nni_strdup", "nni_asprintf", "nni_strnlen", "nni_strcasestr")
+    fns = [f for f in prog.functions if not f.cfg_failed and not f.file.endswith("_test.c")]
+    freed = {}
+    for f in fns:
+        for c in f.calls("nni_strfree"):
+            a0 = f.expand(c.node["args"][0]) if c.node["args"] else None
+            if a0 is not None and a0.get("k") == "mem":
+                freed.setdefault(last_field(a0), (f, c))
+    if len(freed) < 15:
+        raise AnalysisBroken("only %d fields released with nni_strfree found" % len(freed))
+    stores = defaultdict(list)
+    for f in fns:
+        for t in f.assigns():
+            if t.node["lhs"].get("k") == "mem" and last_field(t.node["lhs"]) in freed:
+                stores[last_field(t.node["lhs"])].append((f, t))
+        for c in f.calls("nni_asprintf"):
+            pass
+    for fld, (f0, c0) in sorted(freed.items()):
+        bad = None
+        for f, t in stores.get(fld, []):
+            rhs = f.expand(t.node["rhs"])
+            while rhs is not None and rhs.get("k") in ("cast", "asg"):
+                rhs = f.expand(rhs["e"] if rhs.get("k") == "cast" else rhs["rhs"])
+            if rhs is None or is_null(rhs):
+                continue
+            if rhs.get("k") == "var":
+                from .c01 import reaching_defs
+                ds = [x for _, x in reaching_defs(f, rhs["n"], (t.b, t.i))]
+                if ds and any(x is not None and any(m.get("k") == "call" and m.get("fn") in ALLOCS for m in walk(x)) for x in ds):
+                    bad = (f, t, "a block from nni_alloc / nni_zalloc")
+                continue
+            if rhs.get("k") == "call" and rhs.get("fn") in ALLOCS:
+                bad = (f, t, "a block from %s" % rhs["fn"])
+        if bad:
+            f, t, what = bad
+            ctx.fail(r, f0, "%s released with nni_strfree but filled from a sized allocation" % fld, c0.line,
+                     "%s releases %s with nni_strfree (line %s), i.e. with the size strlen + 1, but %s stores %s there (line %s): "
+                     "the block's size is not the length of the text in it, so the allocator is told the wrong size"
+                     % (f0.name, fld, c0.line, f.name, what, t.line), file=f0.file)
+        else:
+            r.ob(f0, "%s: released with nni_strfree, filled only with duplicated strings" % fld)
+
+
 def run(ctx):
     ctx.guard(rule_o1)
     ctx.guard(rule_o4)
@@ -705,6 +759,7 @@ def run(ctx):
     ctx.guard(rule_o11)
     ctx.guard(rule_o12)
     ctx.guard(rule_o13)
+    ctx.guard(rule_o14)
     from . import c18
     ctx.guard(c18.rule_r11)      # sized free of the msgq ring: the recorded extent belongs to the storage
     for rr in ctx.rules:
